@@ -57,6 +57,20 @@ def maxsize_backflow(rng):
     return {"verts": vs, "edges": edges, "s": lab[0], "t": lab[5]}
 
 
+def int32_large(rng, nv):
+    """capacities of the order 1e9 stored as numpy int32 scalars (sums of two of them do not fit 32 bits), no opposite pairs"""
+    net = rand_net(rng, nv, rng.choice([0.3, 0.6]), [1500000000, 1000000000, 500000000, 1])
+    have, E = set(), []
+    for u, v, c in net["edges"]:
+        if (v, u) in have:
+            continue
+        have.add((u, v))
+        E.append([u, v, c])
+    net["edges"] = E
+    net["np32"] = True
+    return net
+
+
 def poset_shaped(rng, k):
     """the network Irving builds: s=-1, t=-2, 'infinite' arcs between rotations, weights to s/t"""
     verts = [-1, -2] + list(range(k))
@@ -163,9 +177,26 @@ def check_flow(net, flow_items, cut):
     return errs
 
 
+def numpy_ints(net, G):
+    """a network as it comes out of numpy code: vertex labels and capacities are numpy integer scalars (only when all capacities are small:
+    numpy integers are fixed-width, so sys.maxsize capacities are Python ints by necessity). Chosen deterministically from the content."""
+    import hashlib
+    import numpy as np
+    if net.get("np32"):
+        # large capacities that still fit a 32-bit integer, no opposite edge pairs (so no residual capacity exceeds the width either)
+        return {u: [(v, np.int32(c)) for v, c in l] for u, l in G.items()}
+    if any(c > 1000 for _, _, c in net["edges"]):
+        return G
+    h = int(hashlib.sha256(repr((net["edges"], net["s"], net["t"])).encode()).hexdigest()[:4], 16) % 4
+    if h != 0:
+        return G
+    ct = np.int64 if len(net["edges"]) % 2 == 0 else np.int32
+    return {(np.int64(u) if i % 2 == 0 else u): [(np.int32(v) if j % 3 == 0 else v, ct(c)) for j, (v, c) in enumerate(l)] for i, (u, l) in enumerate(G.items())}
+
+
 def call_ff(net, record_paths=False):
     import socialchoicekit.flow as fl
-    G = to_graph(net)
+    G = numpy_ints(net, to_graph(net))
     paths = []
     if record_paths:
         orig = fl.dfs_path
